@@ -386,6 +386,10 @@ class Kernel:
                         del self.fs.files[path]
         elif kind == "tick":
             self.advance(1.0)
+        elif kind == "pass":
+            # time passes, but less than the master's select timeout: only meaningful in a compound event together
+            # with something that wakes the master up
+            self.advance(ev[1])
         else:
             raise AssertionError(ev)
 
